@@ -1017,7 +1017,11 @@ func main() {
 		"response is compared with the response of the same request processed alone ON A NEW STACK, with what it was when the handler " +
 		"returned it, its client subnet with the one the request sent, the query-log lines with those of the requests alone, and at the " +
 		"filter boundary every field of filter.Request / filter.Response / agd.RequestInfo with the request's own identity (and no two " +
-		"requests in flight may use one RequestInfo). overlap: for 8 kinds of history x 8 boundaries x 14 ordered pairs of requests, " +
+		"requests in flight may use one RequestInfo); fault paths: profiles whose message constructor cannot be built (negative TTL, no " +
+		"blocking mode) next to profiles with modes and TTLs of their own, TTL 0, clients without GeoIP data or with a failing lookup, a " +
+		"failing profile database, failing filters and upstreams, malformed client subnets, profiles without IP logging; on the " +
+		"sequential held histories the RequestInfo at the filter is compared field by field with the Lean model of the pooled " +
+		"contexts (fills with an error branch). overlap: for 11 kinds of history x 8 boundaries x 36 ordered pairs of requests, " +
 		"request A is held at the boundary while request B is served completely, on one processor, and both are compared with alone. " +
 		"hot: 4-16 clients ask for the same 1-3 popular questions thousands of times on all processors (each round in a process of " +
 		"its own; ECS cache / simple cache / none, cold or warmed up; scripted filters, or the production filter storage with its " +
@@ -1034,7 +1038,7 @@ func main() {
 	}
 	if only != "cloner" && only != "hot" && only != "wire" {
 		overlapCampaign(o, r)
-		stackCampaign(o, r)
+		stackCampaign(o, r, m)
 	}
 	if only == "" || only == "wire" {
 		wireCampaign(o, r)
